@@ -211,7 +211,7 @@ UNCERTAINTY_POOL = [None, 0, 0.0, 1.5, "int"]
 
 def card_top(v):
     """The dict reader renders cardinality members with str(): bounded so that the rendering is finite."""
-    return 3 if v.tier == "quick" else 11
+    return 11 if v.tier == "quick" else 25
 
 
 @obligation("C02", "property_attributes", shards=6, budget={"quick": 300, "thorough": 900},
@@ -236,7 +236,7 @@ def property_attributes_ob(v):
 
 @obligation("C02", "cardinalities", shards=3, budget={"quick": 300, "thorough": 900},
             expect=["JSON", "YAML"],
-            bounds="the three cardinality kinds (one per shard) through the whole pipeline: every normal-form pair with members None | 0..3 (quick) / 0..11 "
+            bounds="the three cardinality kinds (one per shard) through the whole pipeline: every normal-form pair with members None | 0..11 (quick) / 0..25 "
                    "(thorough); the parse functions alone are decided for larger members in C09")
 def cardinalities_ob(v):
     """Every cardinality shape (max only, min only, min<max, min=max) survives JSON/YAML save and load."""
